@@ -67,6 +67,12 @@ func behaviours() []behaviour {
 		raw("return-date", `return new Date(0);`, "isn't Bindings", "fail"),
 		raw("return-with-function-member", `return {a: 1, f: function(){}};`, "", "weak"),
 		raw("return-null-proto", `return Object.create(null);`, "", "weak"),
+		raw("return-throwing-getter", `return {get a() { throw new Error("MARK-GETTER"); }};`, "", "weak"),
+		raw("return-looping-getter", `return {get a() { while (true) { } }};`, "", "weak"),
+		raw("return-proxy-like", `var o = {}; Object.defineProperty(o, "x", {enumerable: true, get: function() { return o; }}); return o;`, "", "weak"),
+		raw("out-throwing-getter", `_.out({get a() { throw new Error("MARK-GETTER"); }}); return _.bindings;`, "", "weak"),
+		raw("return-array-with-holes", `var a = []; a[5] = 1; return {a: a};`, "", "weak"),
+		raw("return-huge-number-keys", `var o = {}; for (var i = 0; i < 2000; i++) { o["k" + i] = i; } return o;`, "", "weak"),
 		raw("huge-string", `var s = "x"; for (var i = 0; i < 22; i++) { s = s + s; } throw new Error("MARK-HUGE");`, "MARK-HUGE", "fail"),
 	}
 }
@@ -626,6 +632,15 @@ func oddNative(rec *fw.Rec, worker int) {
 		{"exe-nil-bs-err", func(context.Context, match.Bindings, core.StepProps) (*core.Execution, error) {
 			return core.NewExecution(nil), fmt.Errorf("MARK-NATIVE")
 		}},
+		{"exe-literal-without-events", func(_ context.Context, bs match.Bindings, _ core.StepProps) (*core.Execution, error) {
+			return &core.Execution{Bs: match.Bindings{"made": "by hand"}}, nil
+		}},
+		{"exe-literal-without-events-err", func(_ context.Context, bs match.Bindings, _ core.StepProps) (*core.Execution, error) {
+			return &core.Execution{}, fmt.Errorf("MARK-NATIVE")
+		}},
+		{"exe-with-events-without-traces", func(_ context.Context, bs match.Bindings, _ core.StepProps) (*core.Execution, error) {
+			return &core.Execution{Bs: match.Bindings{}, Events: &core.Events{Emitted: []interface{}{"x"}}}, nil
+		}},
 		{"same-map", func(_ context.Context, bs match.Bindings, _ core.StepProps) (*core.Execution, error) {
 			return core.NewExecution(bs), nil
 		}},
@@ -723,7 +738,7 @@ func oddNative(rec *fw.Rec, worker int) {
 }
 
 func Run(cfg fw.Config, rec *fw.Rec) {
-	rec.Rule = "cross product {behaviour (28: throw Error/string/object, infinite loop, recursion, loop inside try, return null/undefined/number/string/array/function/NaN/bool/Date/cyclic/function-member, _.out of unserialisable/NaN/cyclic, bindings replaced, deleting permanents ...)} x {action, guard} x {5 error settings} x {6 states: empty, nil bindings, permanent, unknown node, unknown node + nil bindings, at error node} x {6 controls: nil, limit -1/0/1/100, breakpoint} x {4 pendings incl. a nil element} x {Step, Walk} x renderings; damaged JSON/YAML documents (45 targeted + random) loaded by encoding/json, jsccast/yaml, yaml.v2 and sio's file-URL loader, compiled, then walked; odd native results ((nil,nil), nil bindings, (nil,err), (exe,err), same map); one child process per batch, every case logged before it runs; oracle: no panic / fatal / hang, and every failure surfaced as the reference step says; non-trivial = case run to a verdict; distinct by case description"
+	rec.Rule = "cross product {behaviour (34: throw Error/string/object, infinite loop, recursion, loop inside try, return null/undefined/number/string/array/function/NaN/bool/Date/cyclic/function-member, _.out of unserialisable/NaN/cyclic, bindings replaced, deleting permanents ...)} x {action, guard} x {5 error settings} x {6 states: empty, nil bindings, permanent, unknown node, unknown node + nil bindings, at error node} x {6 controls: nil, limit -1/0/1/100, breakpoint} x {4 pendings incl. a nil element} x {Step, Walk} x renderings; damaged JSON/YAML documents (45 targeted + random) loaded by encoding/json, jsccast/yaml, yaml.v2 and sio's file-URL loader, compiled, then walked; odd native results ((nil,nil), nil bindings, (nil,err), (exe,err), same map); one child process per batch, every case logged before it runs; oracle: no panic / fatal / hang, and every failure surfaced as the reference step says; non-trivial = case run to a verdict; distinct by case description"
 	rec.Required = []string{"failures_surfaced_step", "walks_checked", "state_nil-bindings", "state_unknown-node-nil-bindings", "state_permanent", "failures_surfaced_nil_bindings", "control_nil", "control_limit-1", "doc_compiled", "doc_compile_error", "doc_load_error", "native_odd_checked", "failures_surfaced_native", "behaviour_loop", "behaviour_recursion", "behaviour_out-cyclic"}
 	rec.Assume = []string{"native actions do not panic themselves (a Go panic in host code is the host's)", "with absent bindings an ECMAScript program's behaviour is its own; only totality is judged there", "hard watchdog 30-60 s per call; contexts carry deadlines of 40 ms (non-terminating scripts) or 2 s"}
 	bs := behaviours()
